@@ -47,6 +47,10 @@ def budget(tier: str) -> int:
 
 def generate(rng, tier, n):
     out = []
+    for _ in range(max(50, n // 10)):
+        q = G.gen_subquery_query(rng)
+        out.append(Case(G.sx_query(q), ("subquery-operand", "nsel%d" % len(q["sel"])) + tuple(sorted(set(G.cond_ops(q["cond"])))),
+                        "random", q))
     for _ in range(n):
         q = G.gen_query(rng)
         ops = G.cond_ops(q["cond"])
